@@ -17,6 +17,7 @@ func instTerm(t time.Time) string { return tup(zs(t.Unix()), zs(int64(t.Nanoseco
 
 func init() {
 	props["C19"] = func(c *ctx) {
+		c.framingBoundary(0x36)
 		zones := []int{0, 3600, -3600, 19800, 20700, -12600, 50400, -43200, 1, -1, 45 * 60, 13*3600 + 45*60}
 		t2r := func(t time.Time) {
 			var u xsens.UTCTime
@@ -110,7 +111,7 @@ func init() {
 				if err := cl.Receive(context.Background()); err != nil {
 					return
 				}
-				for cl.ScanMeasurementData() {
+				for steps := 0; steps < 4096 && cl.ScanMeasurementData(); steps++ {
 					if _, ok := cl.MeasurementData().(*xsens.UTCTime); ok {
 						delivered++
 					}
@@ -131,6 +132,36 @@ func init() {
 			sec := first + c.rng.Int63n(time.Date(9999, 12, 31, 23, 59, 59, 0, time.UTC).Unix()-first)
 			ns := []int64{0, 999999999, c.rng.Int63n(1000000000)}[c.rng.Intn(3)]
 			wire(time.Unix(sec, ns).In(time.FixedZone("w", zones[c.rng.Intn(len(zones))])))
+		}
+		// the record handed out by the client's accessor is the client's own: a pointer taken once shows every later message
+		for i := 0; i < c.pick(60, 600); i++ {
+			var stream []byte
+			var ts []time.Time
+			for k := 0; k < 3; k++ {
+				first := time.Date(1, 1, 1, 0, 0, 0, 0, time.UTC).Unix()
+				sec := first + c.rng.Int63n(time.Date(9999, 12, 31, 23, 59, 59, 0, time.UTC).Unix()-first)
+				t := time.Unix(sec, c.rng.Int63n(1000000000)).In(time.FixedZone("k", zones[c.rng.Intn(len(zones))]))
+				var u xsens.UTCTime
+				u.UnmarshalTime(t)
+				pkt, _ := u.MarshalMTData2Packet(xsens.DataIdentifier{DataType: xsens.DataTypeUTCTime})
+				stream = append(stream, xsens.NewMessage(xsens.MessageIdentifierMTData2, pkt)...)
+				ts = append(ts, t)
+			}
+			cl := xsens.NewClient(&scriptedPort{r: &chunkReader{data: stream, final: io.EOF}})
+			kept := cl.UTCTime()
+			for k := 0; k < 3; k++ {
+				protect(func() {
+					if cl.Receive(context.Background()) == nil {
+						for steps := 0; steps < 64 && cl.ScanMeasurementData(); steps++ {
+						}
+					}
+				})
+				rec := *kept
+				back := rec.Time()
+				_, off := ts[k].Zone()
+				c.emit("t2r", tup(zs(ts[k].Unix()), zs(int64(ts[k].Nanosecond())), zs(int64(off)), recTerm(&rec), instTerm(back)))
+				c.count("kept-accessor-pointer")
+			}
 		}
 		lo := time.Date(1, 1, 1, 0, 0, 0, 0, time.UTC).Unix()
 		hi := time.Date(9999, 12, 31, 23, 59, 59, 0, time.UTC).Unix()
